@@ -255,9 +255,10 @@ class Gen:
     known-finding classes (a constant that reads a variable / an unsupported-type constant / an
     interface body importing a later constant / an argument of a local derived type)."""
 
-    def __init__(self, rng, risky=False):
+    def __init__(self, rng, risky=False, named_args=False):
         self.r = rng
         self.risky = risky
+        self.named_args = named_args
 
     def build(self):
         r = self.r
@@ -265,6 +266,7 @@ class Gen:
         self.kparams, self.iparams, self.scalars, self.arrays, self.types, self.tvars = [], [], [], [], [], []
         self.decl, self.uses, self.args, self.pre = [], [], [], []
         self.ifaces, self.features = [], set()
+        self.rparams = []
         if r.random() < 0.5:
             only = r.sample(["ek1", "ek2", "en1", "ev1", "ev2", "ei1"], r.randint(1, 4))
             self.uses.append("use ext_mod, only: " + ", ".join(only))
@@ -284,10 +286,15 @@ class Gen:
             self.entity(cnt)
         return self
 
+    def lkinds(self):
+        """kind constants declared in this unit"""
+        return [x for x in self.kparams if x.startswith("kp")]
+
     def entity(self, k):
         r = self.r
-        kinds = ["kparam", "iparam", "rparam", "scalar", "array", "parray", "type", "tvar", "unsup", "iface", "save"]
-        w = [2, 3, 2, 3, 3, 1, 1, 1, 1, 1, 1]
+        kinds = ["kparam", "iparam", "rparam", "scalar", "array", "parray", "type", "tvar", "unsup", "iface", "save",
+                 "kparray", "kref", "kintr"]
+        w = [2, 3, 2, 3, 3, 1, 1, 1, 1, 1, 1, 2, 2, 1]
         if self.risky:
             kinds += ["risk_kindvar", "risk_charlen", "risk_iface"]
             w += [2, 2, 2]
@@ -312,12 +319,31 @@ class Gen:
             self.iparams.append(nm)
         elif kind == "rparam":
             nm = f"cp{k}"
+            self.rparams.append(nm)
             if self.kparams:
                 kp = r.choice(self.kparams)
                 self.decl.append(f"real(kind={kp}), parameter{vis} :: {nm} = {r.randint(1, 9)}.0_{kp}")
                 self.features.add("param-kind")
             else:
                 self.decl.append(f"real, parameter{vis} :: {nm} = {r.randint(1, 9)}.5")
+        elif kind == "kparray" and self.lkinds():
+            # own kind + an initial value without any Literal node (array constructor = CodeBlock)
+            nm = f"wa{k}"
+            self.decl.append(f"real(kind={r.choice(self.lkinds())}), dimension(3), parameter{vis} :: {nm} = "
+                             f"(/0.25, 0.5, 0.25/)")
+            self.features.add("param-ownkind-codeblock-init")
+        elif kind == "kref" and self.lkinds() and self.iparams:
+            # own kind + an initial value that is a bare reference to another constant
+            nm = f"np{k}"
+            self.decl.append(f"integer(kind={r.choice(self.lkinds())}), parameter{vis} :: {nm} = {r.choice(self.iparams)}")
+            self.iparams.append(nm)
+            self.features.add("param-ownkind-ref-init")
+        elif kind == "kintr" and self.lkinds() and self.rparams:
+            nm = f"cp{k}"
+            self.decl.append(f"real(kind={r.choice(self.lkinds())}), parameter{vis} :: {nm} = "
+                             f"epsilon({r.choice(self.rparams)})")
+            self.rparams.append(nm)
+            self.features.add("param-ownkind-intrinsic-init")
         elif kind == "scalar":
             nm = f"s{k}"
             t = r.choice(["real", "integer", "logical"])
@@ -408,8 +434,41 @@ class Gen:
                 out.append(f"{r.choice(reals)} = {r.randint(1, 9)}.0")
             elif ints:
                 out.append(f"{r.choice(ints)} = {r.randint(1, 9)}")
+        if self.named_args:
+            out += self.named_arg_statements()
         txt = "\n".join(out)
         return "\n".join(indent + ln for ln in txt.split("\n"))
+
+    def named_arg_statements(self):
+        """executable statements whose named / optional arguments a reader or writer could permute"""
+        r = self.r
+        self.decl += ["real, allocatable :: al1(:), al2(:,:)", "logical, allocatable :: lm(:)",
+                      "integer :: ierr", "character(len=80) :: emsg"]
+        self.features.add("named-arg-statements")
+
+        def opts(*o):
+            o = list(o)
+            r.shuffle(o)
+            return ", ".join(o)
+        pool = [
+            "allocate(al1(4), al2(4,4), " + opts("stat=ierr") + ")",
+            "allocate(lm(4), " + opts("stat=ierr", "errmsg=emsg") + ")",
+            "allocate(al2, " + opts("mold=al2", "stat=ierr") + ")",
+            "allocate(al1, " + opts("source=al1", "stat=ierr", "errmsg=emsg") + ")",
+            "q = sum(al1, " + opts("dim=1", "mask=lm") + ")",
+            "q = q + sum(" + opts("array=al1", "mask=lm") + ")",
+            "q = q + maxval(al2, mask=al2 > 0.0)",
+            "q = q + minval(al1, dim=1)",
+            "q = q + real(size(al2, dim=2))",
+            "deallocate(al1, al2, " + opts("stat=ierr", "errmsg=emsg") + ")",
+            "deallocate(lm, " + opts("stat=ierr", "errmsg=emsg") + ")",
+            "deallocate(al1, stat=ierr)",
+        ]
+        if self.ifaces:
+            pool.append(f"call {r.choice(self.ifaces)}(x=q)")
+        n = r.randint(3, 7)
+        picked = sorted(r.sample(range(len(pool)), min(n, len(pool))))
+        return [pool[i] for i in picked]
 
     def source(self):
         r = self.r
@@ -451,7 +510,38 @@ class Gen:
                 + "".join(ind(d, "  ") + "\n" for d in self.decl) + body + "\n  q = q + 1.0\nend subroutine sub1\n")
 
 
-TRANS = ["chunk", "tile", "hoist", "arr2loop"]
+TRANS = ["chunk", "tile", "hoist", "arr2loop", "rename"]
+
+
+def rename_constant(psyir, rng, name=None):
+    """`rename_symbol` of a local constant (preferably one used as a kind): an accepted symbol-table edit
+    that moves the symbol to the end of its table.  Symbols named in unsupported declaration text are
+    left alone (that text is not updated by a rename)."""
+    from psyclone.psyir.nodes import ScopingNode
+    from psyclone.psyir.symbols import DataSymbol, SymbolError, UnsupportedFortranType
+    cands = []
+    for sc in psyir.walk(ScopingNode):
+        tab = sc.symbol_table
+        texts = " ".join(s.datatype.declaration.lower() for s in tab.symbols
+                         if isinstance(getattr(s, "datatype", None), UnsupportedFortranType))
+        for s in tab.symbols:
+            if isinstance(s, DataSymbol) and s.is_constant and not s.is_import and not s.is_unresolved:
+                if name is not None and s.name.lower() != name:
+                    continue
+                if re.search(r"\b" + re.escape(s.name.lower()) + r"\b", texts):
+                    continue
+                used_as_kind = any(getattr(getattr(o, "datatype", None), "precision", None) is s for o in tab.symbols)
+                cands.append((tab, s, used_as_kind))
+    if not cands:
+        return None
+    kinds = [c for c in cands if c[2]]
+    tab, s, _ = rng.choice(kinds if kinds and rng.random() < 0.8 else cands)
+    old = s.name
+    try:
+        tab.rename_symbol(s, tab.next_available_name(old + "_r"))
+    except (SymbolError, KeyError):
+        return None
+    return old
 
 
 def apply_history(psyir, rng, nmax=3):
@@ -463,6 +553,11 @@ def apply_history(psyir, rng, nmax=3):
     for _ in range(nmax):
         t = rng.choice(TRANS)
         try:
+            if t == "rename":
+                nm = rename_constant(psyir, rng)
+                if nm:
+                    done.append("rename:" + nm)
+                continue
             if t == "arr2loop":
                 cands = [a for a in psyir.walk(Assignment) if a.is_array_assignment]
                 if not cands:
